@@ -77,11 +77,15 @@ def check_stat(ctx, case):
         ctx.violation('stat-mutates-input', 'get_cycle_stat modified its inputs', case)
 
 
-def monotone_phase(rng, ncycles, lmin=8, lmax=400):
+def monotone_phase(rng, ncycles, lmin=8, lmax=400, bigstep=False):
     parts, lens = [], []
     for _ in range(ncycles):
         L = int(np.exp(rng.uniform(np.log(lmin), np.log(lmax))))
         inc = rng.uniform(.5, 1.5, L + 1)
+        if bigstep and rng.random() < .5:
+            # a cycle (still strictly increasing inside (0, 2pi)) whose phase advances by 3.2 - 4.2 rad between two consecutive samples
+            j = int(rng.integers(2, L - 1))
+            inc[j] = inc.sum() * float(rng.uniform(1.1, 1.9))
         ph = np.cumsum(inc)[:-1] / inc.sum() * 2 * np.pi
         parts.append(ph)
         lens.append(L)
@@ -261,7 +265,8 @@ def gen_case(rng):
         explicit = bool(rng.random() < .5)
         # without an explicit cycle vector a wrap-free (single-cycle) phase legitimately has no cycles
         while True:
-            ip, lens = monotone_phase(rng, int(rng.integers(1 if explicit else 2, 7)) if rng.random() > .03 else int(rng.integers(60, 150)), lmax=(400 if rng.random() > .03 else 60))
+            ip, lens = monotone_phase(rng, int(rng.integers(1 if explicit else 2, 7)) if rng.random() > .03 else int(rng.integers(60, 150)), lmax=(400 if rng.random() > .03 else 60),
+                                      bigstep=bool(explicit and rng.random() < .25))
             if explicit:
                 break
             # implicit detection needs every cycle boundary to be a wrap of more than 1.5 pi
